@@ -4,6 +4,7 @@ import (
 	"fmt"
 	"math/rand"
 	"os"
+	"path/filepath"
 	"sync"
 	"time"
 
@@ -26,11 +27,12 @@ type c11step struct {
 }
 
 type c11history struct {
-	Fresh  bool
-	Steps  []c11step
-	Kinds  []string
-	Bundle bool // rejections of acknowledgements are sent inside a container, in front of the next answers
-	Back   bool // every second rotation returns to the salt that was valid two rotations ago (A -> B -> A)
+	StoreBroken bool // the session store cannot be written while the rotations happen (directory gone)
+	Fresh       bool
+	Steps       []c11step
+	Kinds       []string
+	Bundle      bool // rejections of acknowledgements are sent inside a container, in front of the next answers
+	Back        bool // every second rotation returns to the salt that was valid two rotations ago (A -> B -> A)
 }
 
 func c11histories(c *wk.Ctx) []c11history {
@@ -70,6 +72,10 @@ func c11histories(c *wk.Ctx) []c11history {
 		c11history{Bundle: true, Steps: []c11step{{Accepted: 3, Rejected: 0, LateFirst: true}, {Accepted: 1, Rejected: 2}}, Kinds: rpcKinds},
 		c11history{Bundle: true, Fresh: true, Steps: []c11step{{Accepted: 2, Rejected: 2}}, Kinds: rpcKinds},
 		c11history{Bundle: true, Back: true, Steps: []c11step{{Accepted: 1, Rejected: 1}, {Accepted: 2, Rejected: 1}, {Accepted: 1, Rejected: 1}}, Kinds: rpcKinds})
+	out = append(out,
+		c11history{StoreBroken: true, Steps: []c11step{{Rejected: 1}}, Kinds: []string{"object"}},
+		c11history{StoreBroken: true, Steps: []c11step{{Accepted: 2, Rejected: 2}, {Rejected: 1}}, Kinds: rpcKinds},
+		c11history{StoreBroken: true, Fresh: true, Steps: []c11step{{Announce: true, Accepted: 1}, {Accepted: 1, Rejected: 1}}, Kinds: rpcKinds})
 	out = append(out, c11history{Steps: []c11step{{Announce: true, Accepted: 1}}, Kinds: []string{"object"}},
 		c11history{Steps: []c11step{{Announce: true}, {Rejected: 2}}, Kinds: rpcKinds},
 		c11history{Fresh: true, Steps: []c11step{{Announce: true, Accepted: 2}, {Accepted: 1, Rejected: 1}}, Kinds: rpcKinds})
@@ -88,7 +94,7 @@ func c11(c *wk.Ctx) {
 	for k := 0; k < c.Pick(20, 1000); k++ {
 		if c.Mine(idx) {
 			r := c.Rand(idx)
-			h := c11history{Fresh: r.Intn(4) == 0, Kinds: rpcKinds, Bundle: r.Intn(3) == 0, Back: r.Intn(3) == 0}
+			h := c11history{Fresh: r.Intn(4) == 0, Kinds: rpcKinds, Bundle: r.Intn(3) == 0, Back: r.Intn(3) == 0, StoreBroken: r.Intn(6) == 0}
 			for s := 1 + r.Intn(3); s > 0; s-- {
 				h.Steps = append(h.Steps, c11step{Accepted: r.Intn(4), Rejected: r.Intn(4), Announce: r.Intn(6) == 0, LateFirst: r.Intn(2) == 0})
 			}
@@ -158,6 +164,12 @@ func c11case(c *wk.Ctx, idx int, r *rand.Rand, h c11history) {
 		return
 	}
 	defer e.close()
+	if h.StoreBroken {
+		// the directory of the session file disappears (volume unmounted, directory cleaned up): saving the new salt
+		// fails from now on; the calls are owed their answers all the same
+		os.RemoveAll(filepath.Dir(e.sess))
+		c.Count("histories.with_unwritable_store", 1)
+	}
 	_ = sawNewSaltAt
 	delays := map[string]int{}
 	for _, p := range []string{"salt.adopt", "salt.notify", "call.retry", "send.enter", "rpc.deliver.before", "recv.dispatch"} {
@@ -335,7 +347,7 @@ func c11case(c *wk.Ctx, idx int, r *rand.Rand, h c11history) {
 				}
 				c.Viol("C11", idx, fmt.Sprintf("salt-not-stored/announce=%v/%s", st.Announce, tag), fmt.Sprintf("history %s step %d: session store holds salt %d, server rotated to %d (err=%v)", desc, si, got, newSalt, lerr), h)
 			}
-		} else {
+		} else if !h.StoreBroken {
 			c.Viol("C11", idx, "salt-not-stored/no-file/"+tag, serr.Error(), h)
 		}
 	}
